@@ -18,7 +18,10 @@ spec/trace/NtsKeTrace.tla monitor (property section on the recorded behaviour) a
 3. harness/c20 replays them on the real Fetcher / IPClient against a scripted TLS 1.3 peer that exports its own
    keys (every history is followed by a probe call; histories with unrecognised non-critical records are run a
    second time without them), runs the project's own StartNTSKEServerIP against the real Fetcher and opens its
-   cookies, and (if available) the same over QUIC.
+   cookies, and the same over QUIC/SCION. WHERE THE REQUEST GOES: histories of the Naming family (acceptable messages
+   that name no endpoint / a host / a port / both) are replayed through client.MeasureClockOffsetIP and
+   client.MeasureClockOffsetSCION (configured remote address host:4003, same ISD-AS); capture sockets record where
+   the request arrives and, over SCION, the destination host and UDP port inside it.
 4. NtsKeTrace.tla validates what the real code did: monitor invariants => VIOLATION, strict => DRIFT.
 """
 import copy, json, os, re, shutil, threading
@@ -541,6 +544,31 @@ def _run(ctx):
         % ("; ".join("%s %d states" % (x["cfg"], x["distinct"]) for x in dl), census_text(sg), census_text(qsg),
            stats.get("stalled", "?"), qstats.get("stalled", "?"), "15 ms", early, qstats.get("returned-early", "?"),
            stats.get("unsettled", "?"), qstats.get("unsettled", "?")))
+    mq = [e for e in qevs if e["ev"] == "call" and e["via"] == "measure"]
+    mi = [e for e in evs + own if e["ev"] == "call" and e["via"] == "measure"]
+    ctx.notes.append(
+        "where the request goes (the NTP client's use of the exchange result; transport ip / scion; over SCION both the "
+        "underlay address the datagram is handed to and the SCION destination host and UDP port inside it). SPEC side: "
+        "NtsKe!Send (dest = [sent, net, server, port, hop]), Destination = DestReturned /\\ DestAddressed /\\ DestHandedTo; "
+        "StaleNextHop = TRUE (request handed to the configured host and port) refuted by TLC (Destination); generated for "
+        "replay (NtsKeGen Naming family: every order of one AEAD(15), one or two cookies, <= %d Server/Port records, End; two "
+        "such exchanges in a row; all calls made by the NTP client with the configured remote address host:4003; plus the "
+        "QUIC walks with calls made either way): IP %s; SCION %s. CODE side (information): %d calls through "
+        "client.MeasureClockOffsetSCION (same ISD-AS, empty path), request datagram captured and parsed in %d; %d calls "
+        "through client.MeasureClockOffsetIP, request captured in %d"
+        % (2 if q else 3, naming_text(ng), naming_text(qng), len(mq), sum(e["dest"]["sent"] for e in mq), len(mi),
+           sum(e["dest"]["sent"] for e in mi)))
+    # a call that got key-exchange data but whose request arrived at none of the model's endpoints is not an
+    # observation of where it went (it may have been sent elsewhere, or not at all: deadline under load): DRIFT
+    lost = [e for e in mq + mi if e["ok"] and not e["dest"]["sent"] and not e["panicked"]]
+    if lost:
+        ctx.drift.append("%d of %d calls made by the NTP client got key-exchange data but no request arrived at any of the "
+                         "capture sockets (hosts host/A/B x ports standard/4001/4002/4003), e.g. %s" %
+                         (len(lost), len(mq) + len(mi),
+                          json.dumps({k: lost[0][k] for k in ("src", "case", "k", "served", "ret", "dest")}, separators=(",", ":"))[:500]))
+    ctx.cov["naming_dimension"] = dict(spec_ip=ng, spec_scion=qng,
+                                       code_scion=dict(measure_calls=len(mq), captured=sum(e["dest"]["sent"] for e in mq)),
+                                       code_ip=dict(measure_calls=len(mi), captured=sum(e["dest"]["sent"] for e in mi)))
     ctx.cov["stall_dimension"] = dict(spec_tls=sg, spec_quic=qsg, code_tls={k: stats.get(k) for k in
                                       ("stalled", "returned-early", "late-records", "unsettled")}, code_quic=qstats)
     jobs.shutdown()
@@ -555,7 +583,10 @@ def _run(ctx):
         ctx.notes.append("recorded calls that ended in a panic of the client code (recorded as observations, not judged "
                          "by C20's clauses): %s" % json.dumps(panics))
     firstok = next((e for e in evs if e["ev"] == "call" and e["ok"] and e["dialed"]), None)
-    qok = next((e for e in qevs if e["ev"] == "call" and e["ok"] and e["dialed"]), None)
+    qok = next((e for e in qevs if e["ev"] == "call" and e["ok"] and e["dialed"] and e["via"] == "fetch"), None)
+    # a request over SCION after an exchange that names another host and another port
+    qnamed = next((e for e in qevs if e["ev"] == "call" and e["dest"]["sent"] and
+                   {"sA", "pA"} <= set(e["served"]["recs"])), None)
     # a call whose peer stalled past the deadline (with cookies after the stall), and the observation that follows it
     si = next((i for i, e in enumerate(evs) if e["ev"] == "call" and e["dialed"] and e["served"]["stallw"] != "none"
                and "ck" in e["served"]["recs"][e["served"]["stall"]:]), None)
@@ -574,9 +605,13 @@ def _run(ctx):
              "histories containing unrecognised non-critical records also run without them; the project's own "
              "StartNTSKEServerIP against the real Fetcher with its cookies opened; 20%% of the TLS calls go through "
              "client.MeasureClockOffsetIP with the NTP request captured; the same over QUIC on a same-AS empty SCION path "
-             "(scripts of <= 2 records exhaustively + walks); distinct = distinct (transport, served script, dialed, via)"
-             % ((3, 4, 3) if q else (4, 6, 4)),
-        samples=[{k: x[k] for k in x if k != "twin"} for x in [firstok, own[1] if len(own) > 1 else None, qok] + stalled if x])
+             "(scripts of <= 2 records exhaustively + walks); every order of one AEAD(15), one or two cookie and <= %d Server / "
+             "Port records + End (<= 6 records; and two such exchanges of <= 4 records in a row), every call made by the NTP "
+             "client (client.MeasureClockOffsetIP / client.MeasureClockOffsetSCION with the configured remote address "
+             "host:4003) and the request datagram captured where it arrives (SCION: parsed for destination host and UDP port); "
+             "distinct = distinct (transport, served script, dialed, via)"
+             % ((3, 4, 3, 2) if q else (4, 6, 4, 3)),
+        samples=[{k: x[k] for k in x if k != "twin"} for x in [firstok, own[1] if len(own) > 1 else None, qok, qnamed] + stalled if x])
     ctx.assumptions += [
         "the scripted peer writes each message in one TLS record / one stream write and closes gracefully "
         "(segmentation is C14's subject)",
@@ -586,11 +621,20 @@ def _run(ctx):
         "own server: the cookies 'issued' are those that open under the provider's key (its wire is not observable)",
         "ALPN answers 'other' and 'refused' end in a failed handshake on either side (crypto/tls offers no way to "
         "select a protocol the client did not offer); over QUIC a handshake without ALPN is impossible",
-        "QUIC: only FetchData is driven (no NTP request over SCION is sent); Destination is judged on the returned Data",
+        "SCION: client and server in the same ISD-AS (empty path, no daemon): the underlay next hop must be the named host "
+        "and port; between ASes (next hop = the path's border router) nothing is generated; SPAO / DRKey authentication off",
+        "where a request arrives is observed on UDP sockets bound to the three hosts x {standard NTP port, 4001, 4002, "
+        "4003 (the configured port)}: a datagram sent anywhere else is not observed (the call then counts as 'not "
+        "captured' and only the returned Data is judged)",
+        "every MeasureClockOffsetSCION / MeasureClockOffsetIP call gets address values of its own (the clients write "
+        "through remoteAddr.Host; timeservice.go's ntpReferenceClockSCION shares one *net.UDPAddr between the reference "
+        "clock, its clients and their Fetchers: that aliasing is not generated); one client per call, not interleaved",
+        "whether FetchData succeeded inside a Measure... call is read from the request on the wire, else from the client's "
+        "log ('failed to fetch key exchange data'), as in the IP variant",
         "time: the deadline of the context a call against a stalling peer is made with passes (Done closed, Err = "
         "DeadlineExceeded) at the moment the peer has fallen silent, not at a wall-clock time (the context announces no "
         "Deadline, so dialling and handshake cannot be cut short by it); the stall ends when the call has returned or 15 ms "
         "later; the next operation on the Fetcher starts after the "
         "peer has closed that connection and no goroutine started by the call runs repository code any more (goroutine "
         "labels; at most 2 s) - overlap of late records with the NEXT call is not generated; calls through "
-        "MeasureClockOffsetIP are not made against a stalling peer"]
+        "MeasureClockOffsetIP / MeasureClockOffsetSCION are not made against a stalling peer"]
